@@ -1,7 +1,8 @@
 """
 C03 — a crash while appending never damages committed records or shows a torn one.
 
-Proof:  Molli.Props.C03 (crash_atomic, crash_reopen, crash_get, crash_then_append, double_crash)
+Proof:  Molli.Props.C03 (crash_atomic, crash_reopen, crash_get, crash_then_append, double_crash, crash_read_then_append,
+        crash_stale_reopen, crash_stale_then_append, other_process_crash)
         + generated layout obligations Molli.Gen.UkvLayout.
 Tie:    every write() of real append sessions is recorded (offset, bytes); for EVERY prefix length of
         that program-order byte stream the crash image is materialised and opened by the real UKVFile
@@ -62,7 +63,7 @@ def run(ctx):
 
     ctx.rule = ("sessions: 0..3 committed records then an append session of 1..4 puts (key lengths {0,1,2,7,255}, "
                 "value lengths {0..300}, values zero-filled / random / header-like); EVERY byte offset of the recorded "
-                "write stream is a case; each case = image opened 'r', opened 'a' + put + reread, and second crashes "
+                "write stream is a case; each case = image opened 'r', opened 'a' + put + reread, one long-lived handle, a stale handle of another process, and second crashes "
                 "of the recovery session. Non-trivial: offset strictly inside the stream (a torn or partial session); "
                 "distinct by (session, offset).")
     ctx.assumptions += [
@@ -89,6 +90,8 @@ def run(ctx):
             ctx.disagree("append session raised", ukvlib.session_json(s), f"{type(e).__name__}: {e}", "session of successful puts")
             continue
         pre_ops += [f"put 0 {hx(k)} {hx(v)}" for k, v in s["committed"]] + ["close 0", "new 1 a - - -"]
+        # the same history with one more handle (4) that cached the committed library and was closed before the session
+        pre_stale = list(pre_ops[:-1]) + ["new 4 r - - -", "close 4", "new 1 a - - -"] + [f"put 1 {hx(k)} {hx(v)}" for k, v in s["session"]]
         pre_ops += [f"put 1 {hx(k)} {hx(v)}" for k, v in s["session"]]
         total = sum(len(d) for _, d in stream)
         ctx.count("sessions")
@@ -135,6 +138,15 @@ def run(ctx):
             requests.append((line, len(pre_ops) + 1, obs_1["outs"], obs_1["file"], {"mode": "one-object", **tag}))
             hist2 = dict(s["session"]) | {k2: v2}
             ukvlib.oracle_append(ctx, obs_1, committed, list(hist2.items()), (k3, v3), {"mode": "one-object", **tag})
+            # ---------- (b3) a STALE handle (it cached the library before the crashed session) meets the crash image ----------
+            obs_s = ukvlib.observe_stale_handle_recovery(ipath, base, img, k2, v2, list(history.keys()))
+            line = ";".join(pre_stale + [f"cutkeep {len(base) + n} 1", "reopen 4 r", "keys 4"] + [f"get 4 {hx(k)}" for k in history.keys()] +
+                            ["close 4", "reopen 4 a", f"put 4 {hx(k2)} {hx(v2)}", "close 4", "new 3 r - - -", "keys 3"] +
+                            [f"get 3 {hx(k)}" for k in allk])
+            requests.append((line, len(pre_stale) + 1, obs_s["outs"][2:], obs_s["file"], {"mode": "stale-handle", **tag}))
+            ukvlib.oracle_crash(ctx, "stale", {"outs": obs_s["outs"], "listed": obs_s["stale_listed"], "vals": obs_s["stale_vals"]},
+                                committed, dict(s["session"]), s["session"], {"mode": "stale-handle", **tag})
+            ukvlib.oracle_append(ctx, obs_s, committed, s["session"], (k2, v2), {"mode": "stale-handle", **tag})
             ctx.count("images")
         # ---------- (c) second crash: the recovery session (reopen a + 2 puts) dies at every offset ----------
         sub = [0, total // 2, max(total - 3, 0)] if ctx.quick() else list(range(0, total + 1, max(1, total // 12)))
